@@ -44,6 +44,8 @@ var fragExotic = []string{
 	"<\u212a>", "<lin\u212a>", "<t\u0130tle>", "<p\u0307>", "<\uff42>",
 	// skip-set elements with attributes, nested skip openers
 	"<object data=x>", "<iframe src=x>", "<frame src=x>", "<noscript>", "</noscript>", "<noframes>", "<nostyle>",
+	// URL-bearing elements whose only attribute is a refused URL
+	"<img src=\"javascript:x\">", "<audio src=\"x y\">", "<link href=\"javascript:x\">", "<area href=\"http://e.x/\">", "<img src=\"http://e.x/i\" crossorigin=\"use-credentials\">",
 	// attribute values with escapable characters, data attributes
 	"<b title=\"a&amp;b&lt;c&gt;&#34;d\">", "<span data-k=\"a&amp;b\" id=q>", "<a href=\"/x?a=1&amp;b=2\">", "<a href=\"/x\" rel=\"x\" target=\"_blank\">",
 }
